@@ -328,7 +328,8 @@ func substTree(rd *core.Rand, d string, t *ETree) (*ETree, int) {
 // ---------- the run ----------
 
 func runExprs(r *core.Run) {
-	rd := r.Rand
+	// a stream of its own, derived from the seed: the statement streams of the property keep their sequence
+	rd := core.NewRand(r.Seed*0x9E3779B97F4A7C15 + 0xC13E)
 	ops := loadOps(r)
 	r.Extra["expr_operator_table"] = fmt.Sprintf("%d infix, %d prefix, %d postfix", len(ops.infix), len(ops.prefix), len(ops.postfix))
 
@@ -403,6 +404,46 @@ func runExprs(r *core.Run) {
 				}
 			}
 		}
+	}
+
+	// (1b) random chains of three and four operators, optionally with one parenthesised pair and prefix operators
+	for i := 0; i < r.N(400, 30000); i++ {
+		d := core.Pick(rd, exprDialects)
+		n := 3 + rd.Intn(2)
+		var sb strings.Builder
+		open := -1
+		if rd.Chance(40) {
+			open = rd.Intn(n)
+		}
+		for k := 0; k <= n; k++ {
+			if k == open {
+				sb.WriteString("(")
+			}
+			if rd.Chance(20) {
+				p := core.Pick(rd, ops.prefix)
+				sb.WriteString(p)
+				if !strings.HasSuffix(p, " ") {
+					sb.WriteString(" ")
+				}
+			}
+			sb.WriteString(core.Pick(rd, []string{"a", "b", "1", "-2", "'x'", "null", "true", "f(a, 1)"}))
+			if k == open+1 && open >= 0 {
+				sb.WriteString(")")
+			}
+			if rd.Chance(15) {
+				sb.WriteString(" " + core.Pick(rd, ops.postfix))
+			}
+			if k < n {
+				f := core.Pick(rd, forms)
+				sb.WriteString(f.pre)
+				if f.post != "" {
+					sb.WriteString(core.Pick(rd, []string{"c", "3", "c + 1"}) + " and ")
+				}
+			}
+		}
+		text := sb.String()
+		r.Begin("chain:"+d+":"+text, true, "stream:expr-pairs", "dialect:"+d)
+		checkParse(r, d, text)
 	}
 
 	// (2) grammar-generated trees with random parenthesisation: printed by the real printer and in variant spellings,
